@@ -50,7 +50,7 @@ class Config:
         self.feas_timeout_ms = kw.get("feas_timeout_ms", 1500)
         # sharded exploration of one harness: paths are partitioned by their first `shard_depth` decisions
         self.shard = kw.get("shard")            # None | (k, n)
-        self.shard_depth = kw.get("shard_depth", 48)
+        self.shard_depth = kw.get("shard_depth", 5)      # counted in real forks
         # "prefix": a shard explores only the paths whose first shard_depth decisions hash to it;
         # "obligations": every shard walks all paths (cheap feasibility queries) but solves the obligations only of
         # every n-th path (the expensive part); the skipped ones are assumed, their owner shard checks them
@@ -78,10 +78,15 @@ class Obl:
                 "secs": round(self.secs, 4), "path": self.path, "detail": self.detail, "kind": self.kind}
 
 
+class _Prefix(list):
+    """decision prefix of a path to explore; `forced` marks the decisions whose other side was infeasible"""
+    forced = None
+
+
 class PathCtx:
     def __init__(self, prefix, cfg: Config):
         self.cfg = cfg
-        self.prefix = list(prefix)
+        self.prefix = prefix if isinstance(prefix, _Prefix) else _Prefix(prefix)
         self.decisions = []
         self.forced = []  # parallel to decisions: True if the other side was infeasible
         self.alternatives = []  # prefixes to explore
@@ -230,7 +235,8 @@ class PathCtx:
         if i < len(self.prefix):
             d = self.prefix[i]
             self.decisions.append(d)
-            self.forced.append(False)
+            pf = getattr(self.prefix, "forced", None)
+            self.forced.append(bool(pf[i]) if pf is not None and i < len(pf) else False)
             self.assume(term if d else z3.Not(term))
             self._shard_gate()
             return d
@@ -264,7 +270,9 @@ class PathCtx:
             self.assume(term)
             self._shard_gate()
             return True
-        self.alternatives.append(self.decisions + [False])
+        alt = _Prefix(self.decisions + [False])
+        alt.forced = list(self.forced) + [False]
+        self.alternatives.append(alt)
         self.decisions.append(True)
         self.forced.append(False)
         self.assume(term)
@@ -273,10 +281,13 @@ class PathCtx:
 
     def _shard_gate(self):
         sh = self.cfg.shard
-        if sh is None or self.cfg.shard_mode != "prefix" or len(self.decisions) != self.cfg.shard_depth:
+        if sh is None or self.cfg.shard_mode != "prefix" or self.forced[-1]:
+            return
+        forks = [d for d, f in zip(self.decisions, self.forced) if not f]      # only real forks count
+        if len(forks) != self.cfg.shard_depth:
             return
         k, n = sh
-        bucket = sum((1 << i) for i, d in enumerate(self.decisions) if d) % n
+        bucket = (sum((1 << i) for i, d in enumerate(forks) if d) * 2654435761 >> 7) % n
         if bucket != k:
             raise OtherShard()
 
@@ -394,7 +405,7 @@ def explore(run_path, cfg: Config):
         res.decisions = list(ctx.decisions)
         res.obls = ctx.obls
         if cfg.shard is not None and cfg.shard_mode == "prefix" and res.end != "other-shard" \
-                and len(ctx.decisions) < cfg.shard_depth and cfg.shard[0] != 0:
+                and sum(1 for f in ctx.forced if not f) < cfg.shard_depth and cfg.shard[0] != 0:
             res.end = "other-shard"      # short paths belong to shard 0
         if cfg.shard is not None and cfg.shard_mode == "obligations" and not getattr(ctx, "own", True) and res.end in ("ok", "infeasible"):
             res.end = "other-shard"
